@@ -344,8 +344,8 @@ pub fn run(rep: &Report) {
             rep.fail(Fail::new(format!("{}/regressed", k.signature), f.what, f.case));
         }
     }
-    let maxl = if rep.tier == Tier::Thorough { 12 } else { 6 };
-    let n = rep.tier.scale(24_000, 25);
+    let maxl = if rep.tier == Tier::Thorough { 10 } else { 6 };
+    let n = rep.tier.scale(24_000, 8);
     run_family(rep, "chains", n, move || (chain_strategy(maxl), stmtgen::ctxs(), any::<u64>()), |(spec, (ctx, _), salt), l| check_chain(spec, ctx, *salt, l));
     for (lab, min) in [("render:ok", 20_000), ("render:error", 8_000), ("chain-length:3", 2_000), ("chain-length:5", 800), ("has:super", 8_000), ("has:capture-and-blocks", 4_000), ("api:render_block", 40_000), ("render_block:non-empty", 12_000)] {
         rep.floor(lab, min);
